@@ -86,6 +86,7 @@ type Source struct {
 	Failed    int
 	Hook      func()
 	FailWith  error // the error returned by the failing call (default ErrInjected)
+	FailData  bool  // the failing call returns data together with its error
 	ZeroBurst int   // > 0: before every chunk of data, this many consecutive (0, nil) reads (legal, if discouraged, for an io.Reader)
 	zeroRun   int
 	burst     int
@@ -98,10 +99,22 @@ func (s *Source) Read(p []byte) (int, error) {
 	s.Calls++
 	if s.FailAt > 0 && (s.Calls == s.FailAt || (s.Sticky && s.Calls > s.FailAt)) {
 		s.Failed++
+		e := ErrInjected
 		if s.FailWith != nil {
-			return 0, s.FailWith
+			e = s.FailWith
 		}
-		return 0, ErrInjected
+		if s.FailData && len(p) > 0 && s.Pos < len(s.Data) {
+			// the failing call hands out data together with its error (allowed by io.Reader: the caller is to
+			// process the bytes first and then consider the error)
+			n := len(p)
+			if rem := len(s.Data) - s.Pos; n > rem {
+				n = rem
+			}
+			copy(p, s.Data[s.Pos:s.Pos+n])
+			s.Pos += n
+			return n, e
+		}
+		return 0, e
 	}
 	if len(p) == 0 {
 		return 0, nil
